@@ -1,7 +1,7 @@
 (** C17: the traceback recorded by the executor is exactly the executing
     chain of the specification evaluation, whatever happened before. *)
 From Coq Require Import List ZArith Bool Arith Lia.
-From MX Require Import Exec.Model Exec.Spec Exec.Basics Exec.SpecMono Exec.Sim Exec.Chain Exec.Top Exec.Cover Exec.Quiet Exec.Edits4 Exec.Edits6 Exec.Results.
+From MX Require Import Exec.Model Exec.Spec Exec.Basics Exec.SpecMono Exec.Masks Exec.Sim Exec.Chain Exec.Top Exec.Cover Exec.Quiet Exec.Edits4 Exec.Edits6 Exec.Results.
 Import ListNotations.
 
 Lemma sp_expr_det' g1 g2 D inp args locs e r1 r2 :
@@ -74,19 +74,19 @@ Definition sim3_expr (f : nat) : Prop :=
   forall st args locs line e r st',
     eval_expr f st args locs line e = (r, st') -> r <> OutOfFuel -> not_deep r -> Inv st -> s_rolled st = [] ->
     (forall v, r = Val v -> s_rolled st' = []) /\
-    (forall k, r = Err k -> forall g rc cc,
+    (forall k, r = Err k -> s_masks st' = s_masks st -> forall g rc cc,
        ch_expr g (defs_of st) (input_data st) args locs line e = (rc, cc) -> rc <> OutOfFuel -> s_rolled st' = cc).
 Definition sim3_args (f : nat) : Prop :=
   forall st args locs line es r st',
     eval_args f st args locs line es = (r, st') -> r <> OutOfFuel -> not_deep r -> Inv st -> s_rolled st = [] ->
     (forall v, r = Val v -> s_rolled st' = []) /\
-    (forall k, r = Err k -> forall g rc cc,
+    (forall k, r = Err k -> s_masks st' = s_masks st -> forall g rc cc,
        ch_args g (defs_of st) (input_data st) args locs line es = (rc, cc) -> rc <> OutOfFuel -> s_rolled st' = cc).
 Definition sim3_node (f : nat) : Prop :=
   forall st line i r st',
     eval_node f st line i = (r, st') -> r <> OutOfFuel -> not_deep r -> Inv st -> s_rolled st = [] ->
     (forall v, r = Val v -> s_rolled st' = []) /\
-    (forall k, r = Err k -> forall g rc cc,
+    (forall k, r = Err k -> s_masks st' = s_masks st -> forall g rc cc,
        ch_node g (defs_of st) (input_data st) i = (rc, cc) -> rc <> OutOfFuel -> s_rolled st' = cc).
 Definition sim3_formula (f : nat) : Prop :=
   forall st cl i r st',
@@ -94,14 +94,14 @@ Definition sim3_formula (f : nat) : Prop :=
     lookup_cell (s_cells st) (fst i) = Some cl ->
     (if cl_cached cl then lookup_data (s_data st) i else None) = None ->
     (forall v, r = Val v -> s_rolled st' = []) /\
-    (forall k, r = Err k -> forall g rc cc,
+    (forall k, r = Err k -> s_masks st' = s_masks st -> forall g rc cc,
        ch_node g (defs_of st) (input_data st) i = (rc, cc) -> rc <> OutOfFuel -> s_rolled st' = cc).
 Definition sim3_body (f : nat) : Prop :=
   forall st args locs whole rest idx r st' ln,
     exec_body f st args locs whole rest idx = (r, st', ln) -> r <> OutOfFuel -> not_deep r -> Inv st ->
     s_rolled st = [] ->
     (forall v, r = Val v -> s_rolled st' = []) /\
-    (forall k, r = Err k -> forall g rc cc ln',
+    (forall k, r = Err k -> s_masks st' = s_masks st -> forall g rc cc ln',
        ch_body g (defs_of st) (input_data st) args locs whole rest idx = (rc, cc, ln') -> rc <> OutOfFuel ->
        s_rolled st' = cc /\ ln = ln').
 
@@ -132,7 +132,7 @@ Proof.
     intros st args locs line e r st' H Hr Hnd HI Hro.
     destruct e; simpl in H;
       try (inversion H; subst; split; [intros; exact Hro|
-             intros ? Hk g rc cc Hc Hrc; destruct g; simpl in Hc; inversion Hc; subst; try congruence; try exact Hro]; fail).
+             intros ? Hk Hmk g rc cc Hc Hrc; destruct g; simpl in Hc; inversion Hc; subst; try congruence; try exact Hro]; fail).
     + (* EBin *)
       destruct (eval_expr f st args locs line e1) as [r1 st1] eqn:E1.
       assert (Hr1 : r1 <> OutOfFuel) by (intros ->; inversion H; subst; congruence).
@@ -152,22 +152,22 @@ Proof.
         rewrite D1, P1 in X2, A2.
         split.
         -- intros v Hv. destruct r2 as [vb|k2|]; [now apply (V2 vb)|inversion H; subst; discriminate|congruence].
-        -- intros k Hk g rc cc Hc Hrc. destruct g; [simpl in Hc; inversion Hc; congruence|]. simpl in Hc.
+        -- intros k Hk Hmk g rc cc Hc Hrc. destruct g; [simpl in Hc; inversion Hc; congruence|]. simpl in Hc.
            destruct (ch_expr g (defs_of st) (input_data st) args locs line e1) as [ra ca] eqn:Ca.
            assert (Hra : ra <> OutOfFuel) by (intros ->; inversion Hc; congruence).
-           pose proof (align_expr _ _ _ _ _ _ _ _ _ _ A1 ltac:(discriminate) Hnd1 Ca Hra) as ->.
+           pose proof (align_expr _ _ _ _ _ _ _ _ _ _ (A1 ltac:(mk)) ltac:(discriminate) Hnd1 Ca Hra) as ->.
            destruct (ch_expr g (defs_of st) (input_data st) args locs line e2) as [rb cb] eqn:Cb.
            assert (Hrb : rb <> OutOfFuel) by (intros ->; inversion Hc; congruence).
-           pose proof (align_expr _ _ _ _ _ _ _ _ _ _ A2 Hr2 Hnd2 Cb Hrb) as ->.
-           destruct r2 as [vb|k2|]; [|inversion Hc; subst; eapply X2; eauto|congruence].
+           pose proof (align_expr _ _ _ _ _ _ _ _ _ _ (A2 ltac:(mk)) Hr2 Hnd2 Cb Hrb) as ->.
+           destruct r2 as [vb|k2|]; [|inversion Hc; subst; eapply X2; eauto; mk|congruence].
            inversion Hc; subst. inversion H; subst. now apply (V2 vb).
       * inversion H; subst. split; [intros v Hv; discriminate|].
-        intros k Hk g rc cc Hc Hrc. inversion Hk; subst k1.
+        intros k Hk Hmk g rc cc Hc Hrc. inversion Hk; subst k1.
         destruct g; [simpl in Hc; inversion Hc; congruence|]. simpl in Hc.
         destruct (ch_expr g (defs_of st) (input_data st) args locs line e1) as [ra ca] eqn:Ca.
         assert (Hra : ra <> OutOfFuel) by (intros ->; inversion Hc; congruence).
-        pose proof (align_expr _ _ _ _ _ _ _ _ _ _ A1 ltac:(discriminate) Hnd1 Ca Hra) as ->.
-        inversion Hc; subst. eapply X1; eauto.
+        pose proof (align_expr _ _ _ _ _ _ _ _ _ _ (A1 ltac:(mk)) ltac:(discriminate) Hnd1 Ca Hra) as ->.
+        inversion Hc; subst. eapply X1; eauto; mk.
     + (* EIfPos *)
       destruct (eval_expr f st args locs line e1) as [r1 st1] eqn:E1.
       assert (Hr1 : r1 <> OutOfFuel) by (intros ->; inversion H; subst; congruence).
@@ -184,27 +184,27 @@ Proof.
         destruct (IHe _ _ _ _ _ _ _ E2 Hr Hnd I1 (V1 _ eq_refl)) as (V2 & X2).
         rewrite D1, P1 in X2.
         split; [exact V2|].
-        intros k Hk g rc cc Hc Hrc. destruct g; [simpl in Hc; inversion Hc; congruence|]. simpl in Hc.
+        intros k Hk Hmk g rc cc Hc Hrc. destruct g; [simpl in Hc; inversion Hc; congruence|]. simpl in Hc.
         destruct (ch_expr g (defs_of st) (input_data st) args locs line e1) as [ra ca] eqn:Ca.
         assert (Hra : ra <> OutOfFuel).
         { intros ->. inversion Hc; congruence. }
-        pose proof (align_expr _ _ _ _ _ _ _ _ _ _ A1 ltac:(discriminate) Hnd1 Ca Hra) as ->.
+        pose proof (align_expr _ _ _ _ _ _ _ _ _ _ (A1 ltac:(mk)) ltac:(discriminate) Hnd1 Ca Hra) as ->.
         assert (Hc' : ch_expr g (defs_of st) (input_data st) args locs line eb = (rc, cc)).
         { subst eb. destruct (Z.ltb 0 z); exact Hc. }
-        eapply X2; eauto.
+        eapply X2; eauto; mk.
       * inversion H; subst. split; [intros v Hv; discriminate|].
-        intros k Hk g rc cc Hc Hrc. destruct g; [simpl in Hc; inversion Hc; congruence|]. simpl in Hc.
+        intros k Hk Hmk g rc cc Hc Hrc. destruct g; [simpl in Hc; inversion Hc; congruence|]. simpl in Hc.
         destruct (ch_expr g (defs_of st) (input_data st) args locs line e1) as [ra ca] eqn:Ca.
         assert (Hra : ra <> OutOfFuel) by (intros ->; inversion Hc; congruence).
-        pose proof (align_expr _ _ _ _ _ _ _ _ _ _ A1 ltac:(discriminate) Hnd1 Ca Hra) as ->.
+        pose proof (align_expr _ _ _ _ _ _ _ _ _ _ (A1 ltac:(mk)) ltac:(discriminate) Hnd1 Ca Hra) as ->.
         inversion Hc; subst. now apply (V1 VNone).
       * inversion H; subst. split; [intros v Hv; discriminate|].
-        intros k Hk g rc cc Hc Hrc. inversion Hk; subst k1.
+        intros k Hk Hmk g rc cc Hc Hrc. inversion Hk; subst k1.
         destruct g; [simpl in Hc; inversion Hc; congruence|]. simpl in Hc.
         destruct (ch_expr g (defs_of st) (input_data st) args locs line e1) as [ra ca] eqn:Ca.
         assert (Hra : ra <> OutOfFuel) by (intros ->; inversion Hc; congruence).
-        pose proof (align_expr _ _ _ _ _ _ _ _ _ _ A1 ltac:(discriminate) Hnd1 Ca Hra) as ->.
-        inversion Hc; subst. eapply X1; eauto.
+        pose proof (align_expr _ _ _ _ _ _ _ _ _ _ (A1 ltac:(mk)) ltac:(discriminate) Hnd1 Ca Hra) as ->.
+        inversion Hc; subst. eapply X1; eauto; mk.
     + (* ECall *)
       destruct (eval_args f st args locs line args0) as [r1 st1] eqn:E1.
       assert (Hr1 : r1 <> OutOfFuel) by (intros ->; inversion H; subst; congruence).
@@ -215,43 +215,43 @@ Proof.
       destruct (frame_defs _ _ F1) as (D1 & P1).
       destruct r1 as [vs|k1|]; [| |congruence].
       * assert (Hcl : s_cells st1 = s_cells st) by (apply static_cells, F1). rewrite Hcl in H.
-        assert (Hargs : forall g rc cc, ch_args g (defs_of st) (input_data st) args locs line args0 = (rc, cc) ->
+        assert (Hargs : s_masks st1 = s_masks st -> forall g rc cc, ch_args g (defs_of st) (input_data st) args locs line args0 = (rc, cc) ->
                           rc <> OutOfFuel -> rc = Val vs).
-        { intros g rc cc Hc Hrc. eapply align_args; eauto; try discriminate. }
+        { intros Hm1 g rc cc Hc Hrc. eapply (align_args _ _ _ _ _ _ _ _ _ _ (A1 Hm1)); eauto; try discriminate. }
         destruct (lookup_cell (s_cells st) c) as [cl|] eqn:El.
         2:{ inversion H; subst. split; [intros v Hv; discriminate|].
-            intros k Hk g rc cc Hc Hrc. destruct g; [simpl in Hc; inversion Hc; congruence|]. simpl in Hc.
+            intros k Hk Hmk g rc cc Hc Hrc. destruct g; [simpl in Hc; inversion Hc; congruence|]. simpl in Hc.
             destruct (ch_args g (defs_of st) (input_data st) args locs line args0) as [ra ca] eqn:Ca.
             assert (Hra : ra <> OutOfFuel) by (intros ->; inversion Hc; congruence).
-            rewrite (Hargs _ _ _ Ca Hra) in Hc. unfold defs_of in Hc; simpl in Hc. rewrite El in Hc.
+            rewrite (Hargs ltac:(mk) _ _ _ Ca Hra) in Hc. unfold defs_of in Hc; simpl in Hc. rewrite El in Hc.
             inversion Hc; subst. now apply (V1 vs). }
         destruct (bind_pos cl vs) as [kk|] eqn:Eb.
         2:{ inversion H; subst. split; [intros v Hv; discriminate|].
-            intros k Hk g rc cc Hc Hrc. destruct g; [simpl in Hc; inversion Hc; congruence|]. simpl in Hc.
+            intros k Hk Hmk g rc cc Hc Hrc. destruct g; [simpl in Hc; inversion Hc; congruence|]. simpl in Hc.
             destruct (ch_args g (defs_of st) (input_data st) args locs line args0) as [ra ca] eqn:Ca.
             assert (Hra : ra <> OutOfFuel) by (intros ->; inversion Hc; congruence).
-            rewrite (Hargs _ _ _ Ca Hra) in Hc. unfold defs_of in Hc; simpl in Hc. rewrite El, Eb in Hc.
+            rewrite (Hargs ltac:(mk) _ _ _ Ca Hra) in Hc. unfold defs_of in Hc; simpl in Hc. rewrite El, Eb in Hc.
             inversion Hc; subst. now apply (V1 vs). }
         destruct (IHn _ _ _ _ _ H Hr Hnd I1 (V1 vs eq_refl)) as (V2 & X2).
         rewrite D1, P1 in X2.
         split; [exact V2|].
-        intros k Hk g rc cc Hc Hrc. destruct g; [simpl in Hc; inversion Hc; congruence|]. simpl in Hc.
+        intros k Hk Hmk g rc cc Hc Hrc. destruct g; [simpl in Hc; inversion Hc; congruence|]. simpl in Hc.
         destruct (ch_args g (defs_of st) (input_data st) args locs line args0) as [ra ca] eqn:Ca.
         assert (Hra : ra <> OutOfFuel) by (intros ->; inversion Hc; congruence).
-        rewrite (Hargs _ _ _ Ca Hra) in Hc. unfold defs_of in Hc; simpl in Hc. rewrite El, Eb in Hc.
-        eapply X2; eauto.
+        rewrite (Hargs ltac:(mk) _ _ _ Ca Hra) in Hc. unfold defs_of in Hc; simpl in Hc. rewrite El, Eb in Hc.
+        eapply X2; eauto; mk.
       * inversion H; subst. split; [intros v Hv; discriminate|].
-        intros k Hk g rc cc Hc Hrc. inversion Hk; subst k1.
+        intros k Hk Hmk g rc cc Hc Hrc. inversion Hk; subst k1.
         destruct g; [simpl in Hc; inversion Hc; congruence|]. simpl in Hc.
         destruct (ch_args g (defs_of st) (input_data st) args locs line args0) as [ra ca] eqn:Ca.
         assert (Hra : ra <> OutOfFuel) by (intros ->; inversion Hc; congruence).
-        pose proof (align_args _ _ _ _ _ _ _ _ _ _ A1 ltac:(discriminate) Hnd1 Ca Hra) as ->.
-        inversion Hc; subst. eapply X1; eauto.
+        pose proof (align_args _ _ _ _ _ _ _ _ _ _ (A1 ltac:(mk)) ltac:(discriminate) Hnd1 Ca Hra) as ->.
+        inversion Hc; subst. eapply X1; eauto; mk.
     + (* ERefA *)
       destruct (lookup_ref (s_refs st) r0) as [[sp v]|] eqn:El; inversion H; subst.
       * split; [intros; exact Hro|intros k Hk; discriminate].
       * split; [intros v Hv; discriminate|].
-        intros k Hk g rc cc Hc Hrc. destruct g; simpl in Hc; inversion Hc; subst; try congruence; try exact Hro.
+        intros k Hk Hmk g rc cc Hc Hrc. destruct g; simpl in Hc; inversion Hc; subst; try congruence; try exact Hro.
   - (* argument lists *)
     intros st args locs line es r st' H Hr Hnd HI Hro.
     destruct es as [|e rest]; simpl in H.
@@ -274,21 +274,21 @@ Proof.
         rewrite D1, P1 in X2, A2.
         split.
         -- intros v Hv. destruct r2 as [vs|k2|]; [now apply (V2 vs)|inversion H; subst; discriminate|congruence].
-        -- intros k Hk g rc cc Hc Hrc. destruct g; [simpl in Hc; inversion Hc; congruence|]. simpl in Hc.
+        -- intros k Hk Hmk g rc cc Hc Hrc. destruct g; [simpl in Hc; inversion Hc; congruence|]. simpl in Hc.
            destruct (ch_expr g (defs_of st) (input_data st) args locs line e) as [ra ca] eqn:Ca.
            assert (Hra : ra <> OutOfFuel) by (intros ->; inversion Hc; congruence).
-           pose proof (align_expr _ _ _ _ _ _ _ _ _ _ A1 ltac:(discriminate) Hnd1 Ca Hra) as ->.
+           pose proof (align_expr _ _ _ _ _ _ _ _ _ _ (A1 ltac:(mk)) ltac:(discriminate) Hnd1 Ca Hra) as ->.
            destruct (ch_args g (defs_of st) (input_data st) args locs line rest) as [rb cb] eqn:Cb.
            assert (Hrb : rb <> OutOfFuel) by (intros ->; inversion Hc; congruence).
-           pose proof (align_args _ _ _ _ _ _ _ _ _ _ A2 Hr2 Hnd2 Cb Hrb) as ->.
-           destruct r2 as [vs|k2|]; [inversion H; subst; discriminate|inversion Hc; subst; eapply X2; eauto|congruence].
+           pose proof (align_args _ _ _ _ _ _ _ _ _ _ (A2 ltac:(mk)) Hr2 Hnd2 Cb Hrb) as ->.
+           destruct r2 as [vs|k2|]; [inversion H; subst; discriminate|inversion Hc; subst; eapply X2; eauto; mk|congruence].
       * inversion H; subst. split; [intros v Hv; discriminate|].
-        intros k Hk g rc cc Hc Hrc. inversion Hk; subst k1.
+        intros k Hk Hmk g rc cc Hc Hrc. inversion Hk; subst k1.
         destruct g; [simpl in Hc; inversion Hc; congruence|]. simpl in Hc.
         destruct (ch_expr g (defs_of st) (input_data st) args locs line e) as [ra ca] eqn:Ca.
         assert (Hra : ra <> OutOfFuel) by (intros ->; inversion Hc; congruence).
-        pose proof (align_expr _ _ _ _ _ _ _ _ _ _ A1 ltac:(discriminate) Hnd1 Ca Hra) as ->.
-        inversion Hc; subst. eapply X1; eauto.
+        pose proof (align_expr _ _ _ _ _ _ _ _ _ _ (A1 ltac:(mk)) ltac:(discriminate) Hnd1 Ca Hra) as ->.
+        inversion Hc; subst. eapply X1; eauto; mk.
   - (* node *)
     intros st line i r st' H Hr Hnd HI Hro. simpl in H.
     destruct (lookup_cell (s_cells st) (fst i)) as [cl|] eqn:El.
@@ -298,7 +298,7 @@ Proof.
         destruct Hst as (-> & Hs). split; [intros; now rewrite Hs|intros k Hk; discriminate].
       * eapply IHf; eauto.
     + inversion H; subst. split; [intros v Hv; discriminate|].
-      intros k Hk g rc cc Hc Hrc. destruct g; [simpl in Hc; inversion Hc; congruence|]. simpl in Hc.
+      intros k Hk Hmk g rc cc Hc Hrc. destruct g; [simpl in Hc; inversion Hc; congruence|]. simpl in Hc.
       unfold defs_of in Hc; simpl in Hc. rewrite El in Hc. inversion Hc; subst. exact Hro.
   - (* formula *)
     intros st cl i r st' H Hr Hnd HI Hro El Em. simpl in H.
@@ -331,9 +331,9 @@ Proof.
       rewrite Hmiss in Hc. symmetry. exact Hc. }
     destruct rb as [v|kb|]; [| |congruence].
     + (* the body returned a value *)
-      assert (Hbody : forall g rc cc ln0, ch_body g (defs_of st) (input_data st) (snd i) [] (cl_body cl) (cl_body cl) 0
+      assert (Hbody : s_masks st2 = s_masks st1 -> forall g rc cc ln0, ch_body g (defs_of st) (input_data st) (snd i) [] (cl_body cl) (cl_body cl) 0
                         = (rc, cc, ln0) -> rc <> OutOfFuel -> rc = Val v).
-      { intros g rc cc ln0 Hc Hrc. eapply align_body; eauto; try discriminate; try apply not_deep_val. }
+      { intros Hm2 g rc cc ln0 Hc Hrc. eapply (align_body _ _ _ _ _ _ _ _ _ _ _ _ (A2 Hm2)); eauto; try discriminate; try apply not_deep_val. }
       assert (Hcase : (v = VNone /\ cl_allow_none cl = false /\ r = Err KNone /\ st' = rollback_frame st2 0) \/
                       (none_check cl v = Val v /\ r = Val v /\ s_rolled st' = s_rolled st2)).
       assert (Hrt : s_rolled (pop_tainted st2) = s_rolled st2) by reflexivity.
@@ -351,29 +351,29 @@ Proof.
           + left. inversion H; subst. auto. }
       destruct Hcase as [(-> & Ea & -> & ->)|(Hnc & -> & Hs)].
       * split; [intros v Hv; discriminate|].
-        intros k Hk g rc cc Hc Hrc. destruct g; [simpl in Hc; inversion Hc; congruence|].
+        intros k Hk Hmk g rc cc Hc Hrc. destruct g; [simpl in Hc; inversion Hc; congruence|].
         pose proof (Hnode g rc cc Hc) as Hn.
         destruct (ch_body g (defs_of st) (input_data st) (snd i) [] (cl_body cl) (cl_body cl) 0) as [[rb0 cb0] ln0] eqn:Cb.
         assert (Hrb0 : rb0 <> OutOfFuel) by (intros ->; inversion Hn; congruence).
-        rewrite (Hbody _ _ _ _ Cb Hrb0) in Hn.
+        rewrite (Hbody ltac:(mk) _ _ _ _ Cb Hrb0) in Hn.
         unfold none_check in Hn. rewrite Ea in Hn. inversion Hn; subst.
         rewrite (rolled_rollback st2 i (s_stack st) 0 K2). now rewrite (VB VNone eq_refl).
       * split; [intros w Hw; rewrite Hs; now apply (VB v)|intros k Hk; discriminate].
     + (* the body failed *)
       inversion H; subst. split; [intros v Hv; discriminate|].
-      intros k Hk g rc cc Hc Hrc. inversion Hk; subst kb.
+      intros k Hk Hmk g rc cc Hc Hrc. inversion Hk; subst kb.
       destruct g; [simpl in Hc; inversion Hc; congruence|].
       pose proof (Hnode g rc cc Hc) as Hn.
       destruct (ch_body g (defs_of st) (input_data st) (snd i) [] (cl_body cl) (cl_body cl) 0) as [[rb0 cb0] ln0] eqn:Cb.
       assert (Hrb0 : rb0 <> OutOfFuel) by (intros ->; inversion Hn; congruence).
-      pose proof (align_body _ _ _ _ _ _ _ _ _ _ _ _ A2 ltac:(discriminate) Hndb Cb Hrb0) as ->.
-      destruct (XB k eq_refl _ _ _ _ Cb ltac:(discriminate)) as (Hcc & Hln).
+      pose proof (align_body _ _ _ _ _ _ _ _ _ _ _ _ (A2 ltac:(mk)) ltac:(discriminate) Hndb Cb Hrb0) as ->.
+      destruct (XB k eq_refl ltac:(mk) _ _ _ _ Cb ltac:(discriminate)) as (Hcc & Hln).
       inversion Hn; subst. rewrite (rolled_rollback st2 i (s_stack st) ln0 K2). reflexivity.
   - (* statements *)
     intros st args locs whole rest idx r st' ln H Hr Hnd HI Hro.
     destruct rest as [|s more]; simpl in H.
     + inversion H; subst. split; [intros; exact Hro|intros k Hk; discriminate].
-    + destruct s as [e|e h].
+    + destruct s as [e|e h|e fc].
       * destruct (eval_expr f st args locs (stmt_line whole idx) e) as [r1 st1] eqn:E1.
         assert (Hr1 : r1 <> OutOfFuel) by (intros ->; inversion H; subst; congruence).
         assert (Hnd1 : not_deep r1).
@@ -384,18 +384,18 @@ Proof.
         destruct r1 as [v1|k1|]; [| |congruence].
         -- destruct (IHb _ _ _ _ _ _ _ _ _ H Hr Hnd I1 (V1 v1 eq_refl)) as (V2 & X2).
            rewrite D1, P1 in X2. split; [exact V2|].
-           intros k Hk g rc cc ln' Hc Hrc. destruct g; [simpl in Hc; inversion Hc; congruence|]. simpl in Hc.
+           intros k Hk Hmk g rc cc ln' Hc Hrc. destruct g; [simpl in Hc; inversion Hc; congruence|]. simpl in Hc.
            destruct (ch_expr g (defs_of st) (input_data st) args locs (stmt_line whole idx) e) as [ra ca] eqn:Ca.
            assert (Hra : ra <> OutOfFuel) by (intros ->; inversion Hc; congruence).
-           pose proof (align_expr _ _ _ _ _ _ _ _ _ _ A1 ltac:(discriminate) Hnd1 Ca Hra) as ->.
-           eapply X2; eauto.
+           pose proof (align_expr _ _ _ _ _ _ _ _ _ _ (A1 ltac:(mk)) ltac:(discriminate) Hnd1 Ca Hra) as ->.
+           eapply X2; eauto; mk.
         -- inversion H; subst. split; [intros v Hv; discriminate|].
-           intros k Hk g rc cc ln' Hc Hrc. inversion Hk; subst k1.
+           intros k Hk Hmk g rc cc ln' Hc Hrc. inversion Hk; subst k1.
            destruct g; [simpl in Hc; inversion Hc; congruence|]. simpl in Hc.
            destruct (ch_expr g (defs_of st) (input_data st) args locs (stmt_line whole idx) e) as [ra ca] eqn:Ca.
            assert (Hra : ra <> OutOfFuel) by (intros ->; inversion Hc; congruence).
-           pose proof (align_expr _ _ _ _ _ _ _ _ _ _ A1 ltac:(discriminate) Hnd1 Ca Hra) as ->.
-           inversion Hc; subst. split; [eapply X1; eauto|reflexivity].
+           pose proof (align_expr _ _ _ _ _ _ _ _ _ _ (A1 ltac:(mk)) ltac:(discriminate) Hnd1 Ca Hra) as ->.
+           inversion Hc; subst. split; [eapply X1; eauto; mk|reflexivity].
       * destruct (eval_expr f st args locs (stmt_line whole idx + 1) e) as [r1 st1] eqn:E1.
         assert (Hr1 : r1 <> OutOfFuel) by (intros ->; inversion H; subst; congruence).
         assert (Hnd1 : not_deep r1).
@@ -406,11 +406,11 @@ Proof.
         destruct r1 as [v1|k1|]; [| |congruence].
         -- destruct (IHb _ _ _ _ _ _ _ _ _ H Hr Hnd I1 (V1 v1 eq_refl)) as (V2 & X2).
            rewrite D1, P1 in X2. split; [exact V2|].
-           intros k Hk g rc cc ln' Hc Hrc. destruct g; [simpl in Hc; inversion Hc; congruence|]. simpl in Hc.
+           intros k Hk Hmk g rc cc ln' Hc Hrc. destruct g; [simpl in Hc; inversion Hc; congruence|]. simpl in Hc.
            destruct (ch_expr g (defs_of st) (input_data st) args locs (stmt_line whole idx + 1) e) as [ra ca] eqn:Ca.
            assert (Hra : ra <> OutOfFuel) by (intros ->; inversion Hc; congruence).
-           pose proof (align_expr _ _ _ _ _ _ _ _ _ _ A1 ltac:(discriminate) Hnd1 Ca Hra) as ->.
-           eapply X2; eauto.
+           pose proof (align_expr _ _ _ _ _ _ _ _ _ _ (A1 ltac:(mk)) ltac:(discriminate) Hnd1 Ca Hra) as ->.
+           eapply X2; eauto; mk.
         -- destruct (catchable k1) eqn:Ek.
            ++ set (st1' := upd_rolled st1 []) in *.
               assert (I1' : Inv st1') by exact I1.
@@ -425,39 +425,113 @@ Proof.
               assert (F12 : frame st st2).
               { eapply frame_trans; [exact F1|]. destruct F2 as (a & b & c & d). repeat split; assumption. }
               destruct (frame_defs _ _ F12) as (D2 & P2).
-              assert (Hhead : forall g ra ca, ch_expr g (defs_of st) (input_data st) args locs (stmt_line whole idx + 1) e = (ra, ca) ->
+              assert (Hhead : s_masks st1 = s_masks st -> forall g ra ca, ch_expr g (defs_of st) (input_data st) args locs (stmt_line whole idx + 1) e = (ra, ca) ->
                                 ra <> OutOfFuel -> ra = Err k1).
-              { intros g ra ca Ca Hra. eapply align_expr; eauto; try discriminate. }
-              assert (Hh : forall g rh chh, ch_expr g (defs_of st) (input_data st) args locs (stmt_line whole idx + 3) h = (rh, chh) ->
+              { intros Hm1 g ra ca Ca Hra. eapply (align_expr _ _ _ _ _ _ _ _ _ _ (A1 Hm1)); eauto; try discriminate. }
+              assert (Hh : s_masks st2 = s_masks st1 -> forall g rh chh, ch_expr g (defs_of st) (input_data st) args locs (stmt_line whole idx + 3) h = (rh, chh) ->
                              rh <> OutOfFuel -> rh = r2).
-              { intros g rh chh Ch Hrh. eapply align_expr; eauto. }
+              { intros Hm2 g rh chh Ch Hrh. eapply (align_expr _ _ _ _ _ _ _ _ _ _ (A2 Hm2)); eauto. }
               destruct r2 as [v2|k2|]; [| |congruence].
               ** destruct (IHb _ _ _ _ _ _ _ _ _ H Hr Hnd I2 (V2 v2 eq_refl)) as (V3 & X3).
                  rewrite D2, P2 in X3. split; [exact V3|].
-                 intros k Hk g rc cc ln' Hc Hrc. destruct g; [simpl in Hc; inversion Hc; congruence|]. simpl in Hc.
+                 intros k Hk Hmk g rc cc ln' Hc Hrc. destruct g; [simpl in Hc; inversion Hc; congruence|]. simpl in Hc.
                  destruct (ch_expr g (defs_of st) (input_data st) args locs (stmt_line whole idx + 1) e) as [ra ca] eqn:Ca.
                  assert (Hra : ra <> OutOfFuel) by (intros ->; inversion Hc; congruence).
-                 rewrite (Hhead _ _ _ Ca Hra), Ek in Hc.
+                 rewrite (Hhead ltac:(mk) _ _ _ Ca Hra), Ek in Hc.
                  destruct (ch_expr g (defs_of st) (input_data st) args locs (stmt_line whole idx + 3) h) as [rh chh] eqn:Ch.
                  assert (Hrh : rh <> OutOfFuel) by (intros ->; inversion Hc; congruence).
-                 rewrite (Hh _ _ _ Ch Hrh) in Hc. eapply X3; eauto.
+                 rewrite (Hh ltac:(mk) _ _ _ Ch Hrh) in Hc. eapply X3; eauto; mk.
               ** inversion H; subst. split; [intros v Hv; discriminate|].
-                 intros k Hk g rc cc ln' Hc Hrc. inversion Hk; subst k2.
+                 intros k Hk Hmk g rc cc ln' Hc Hrc. inversion Hk; subst k2.
                  destruct g; [simpl in Hc; inversion Hc; congruence|]. simpl in Hc.
                  destruct (ch_expr g (defs_of st) (input_data st) args locs (stmt_line whole idx + 1) e) as [ra ca] eqn:Ca.
                  assert (Hra : ra <> OutOfFuel) by (intros ->; inversion Hc; congruence).
-                 rewrite (Hhead _ _ _ Ca Hra), Ek in Hc.
+                 rewrite (Hhead ltac:(mk) _ _ _ Ca Hra), Ek in Hc.
                  destruct (ch_expr g (defs_of st) (input_data st) args locs (stmt_line whole idx + 3) h) as [rh chh] eqn:Ch.
                  assert (Hrh : rh <> OutOfFuel) by (intros ->; inversion Hc; congruence).
-                 rewrite (Hh _ _ _ Ch Hrh) in Hc. inversion Hc; subst.
-                 split; [eapply X2; eauto|reflexivity].
+                 rewrite (Hh ltac:(mk) _ _ _ Ch Hrh) in Hc. inversion Hc; subst.
+                 split; [eapply X2; eauto; mk|reflexivity].
            ++ inversion H; subst. split; [intros v Hv; discriminate|].
-              intros k Hk g rc cc ln' Hc Hrc. inversion Hk; subst k1.
+              intros k Hk Hmk g rc cc ln' Hc Hrc. inversion Hk; subst k1.
               destruct g; [simpl in Hc; inversion Hc; congruence|]. simpl in Hc.
               destruct (ch_expr g (defs_of st) (input_data st) args locs (stmt_line whole idx + 1) e) as [ra ca] eqn:Ca.
               assert (Hra : ra <> OutOfFuel) by (intros ->; inversion Hc; congruence).
-              pose proof (align_expr _ _ _ _ _ _ _ _ _ _ A1 ltac:(discriminate) Hnd1 Ca Hra) as ->.
-              rewrite Ek in Hc. inversion Hc; subst. split; [eapply X1; eauto|reflexivity].
+              pose proof (align_expr _ _ _ _ _ _ _ _ _ _ (A1 ltac:(mk)) ltac:(discriminate) Hnd1 Ca Hra) as ->.
+              rewrite Ek in Hc. inversion Hc; subst. split; [eapply X1; eauto; mk|reflexivity].
+      * (* SFin *)
+        destruct (eval_expr f st args locs (stmt_line whole idx + 1) e) as [r1 st1] eqn:E1.
+        assert (Hr1 : r1 <> OutOfFuel) by (intros ->; inversion H; subst; congruence).
+        destruct (SE _ _ _ _ _ _ _ E1 Hr1 HI) as (I1 & F1 & A1).
+        destruct (frame_defs _ _ F1) as (D1 & P1).
+        destruct r1 as [v1|k1|]; [| |congruence].
+        -- destruct (IHe _ _ _ _ _ _ _ E1 Hr1 (not_deep_val _) HI Hro) as (V1 & X1).
+           destruct (eval_expr f st1 args locs (stmt_line whole idx + 3) fc) as [r2 st2] eqn:E2.
+           assert (Hr2 : r2 <> OutOfFuel) by (intros ->; inversion H; subst; congruence).
+           assert (Hnd2 : not_deep r2).
+           { intros k ->. inversion H; subst. now apply Hnd. }
+           destruct (SE _ _ _ _ _ _ _ E2 Hr2 I1) as (I2 & F2 & A2).
+           destruct (IHe _ _ _ _ _ _ _ E2 Hr2 Hnd2 I1 (V1 v1 eq_refl)) as (V2 & X2).
+           rewrite D1, P1 in X2, A2.
+           assert (F12 : frame st st2) by (eapply frame_trans; eauto).
+           destruct (frame_defs _ _ F12) as (D2 & P2).
+           destruct r2 as [v2|k2|]; [| |congruence].
+           ++ destruct (IHb _ _ _ _ _ _ _ _ _ H Hr Hnd I2 (V2 v2 eq_refl)) as (V3 & X3).
+              rewrite D2, P2 in X3. split; [exact V3|].
+              intros k Hk Hmk g rc cc ln' Hc Hrc. destruct g; [simpl in Hc; inversion Hc; congruence|]. simpl in Hc.
+              destruct (ch_expr g (defs_of st) (input_data st) args locs (stmt_line whole idx + 1) e) as [ra ca] eqn:Ca.
+              assert (Hra : ra <> OutOfFuel) by (intros ->; inversion Hc; congruence).
+              pose proof (align_expr _ _ _ _ _ _ _ _ _ _ (A1 ltac:(mk)) ltac:(discriminate) (not_deep_val _) Ca Hra) as ->.
+              destruct (ch_expr g (defs_of st) (input_data st) args locs (stmt_line whole idx + 3) fc) as [rh chh] eqn:Ch.
+              assert (Hrh : rh <> OutOfFuel) by (intros ->; inversion Hc; congruence).
+              pose proof (align_expr _ _ _ _ _ _ _ _ _ _ (A2 ltac:(mk)) ltac:(discriminate) (not_deep_val _) Ch Hrh) as ->.
+              eapply X3; eauto; mk.
+           ++ inversion H; subst. split; [intros v Hv; discriminate|].
+              intros k Hk Hmk g rc cc ln' Hc Hrc. inversion Hk; subst k2.
+              destruct g; [simpl in Hc; inversion Hc; congruence|]. simpl in Hc.
+              destruct (ch_expr g (defs_of st) (input_data st) args locs (stmt_line whole idx + 1) e) as [ra ca] eqn:Ca.
+              assert (Hra : ra <> OutOfFuel) by (intros ->; inversion Hc; congruence).
+              pose proof (align_expr _ _ _ _ _ _ _ _ _ _ (A1 ltac:(mk)) ltac:(discriminate) (not_deep_val _) Ca Hra) as ->.
+              destruct (ch_expr g (defs_of st) (input_data st) args locs (stmt_line whole idx + 3) fc) as [rh chh] eqn:Ch.
+              assert (Hrh : rh <> OutOfFuel) by (intros ->; inversion Hc; congruence).
+              pose proof (align_expr _ _ _ _ _ _ _ _ _ _ (A2 ltac:(mk)) ltac:(discriminate) Hnd2 Ch Hrh) as ->.
+              inversion Hc; subst. split; [eapply X2; eauto; mk|reflexivity].
+        -- set (st1' := upd_rolled st1 []) in *.
+           assert (I1' : Inv st1') by exact I1.
+           destruct (eval_expr f st1' args locs (stmt_line whole idx + 3) fc) as [r2 st2] eqn:E2.
+           assert (Hr2 : r2 <> OutOfFuel) by (intros ->; inversion H; subst; congruence).
+           destruct (SE _ _ _ _ _ _ _ E2 Hr2 I1') as (I2 & F2 & A2).
+           change (defs_of st1') with (defs_of st1) in A2. change (input_data st1') with (input_data st1) in A2.
+           rewrite D1, P1 in A2.
+           destruct r2 as [v2|k2|]; [| |congruence]; inversion H; subst.
+           ++ (* the clean-up completed: the pending failure goes on with its own nodes *)
+              assert (Hnd1 : not_deep (@Err val k1)) by exact Hnd.
+              destruct (IHe _ _ _ _ _ _ _ E1 Hr1 Hnd1 HI Hro) as (V1 & X1).
+              split; [intros v Hv; discriminate|].
+              intros k Hk Hmk g rc cc ln' Hc Hrc. inversion Hk; subst k1.
+              destruct g; [simpl in Hc; inversion Hc; congruence|]. simpl in Hc.
+              destruct (ch_expr g (defs_of st) (input_data st) args locs (stmt_line whole idx + 1) e) as [ra ca] eqn:Ca.
+              assert (Hra : ra <> OutOfFuel) by (intros ->; inversion Hc; congruence).
+              pose proof (align_expr _ _ _ _ _ _ _ _ _ _ (A1 ltac:(mk)) ltac:(discriminate) Hnd1 Ca Hra) as ->.
+              destruct (ch_expr g (defs_of st) (input_data st) args locs (stmt_line whole idx + 3) fc) as [rh chh] eqn:Ch.
+              assert (Hrh : rh <> OutOfFuel) by (intros ->; inversion Hc; congruence).
+              pose proof (align_expr _ _ _ _ _ _ _ _ _ _ (A2 ltac:(mk)) ltac:(discriminate) (not_deep_val _) Ch Hrh) as ->.
+              inversion Hc; subst. split; [|reflexivity].
+              change (s_rolled (upd_rolled st2 (s_rolled st1))) with (s_rolled st1). eapply X1; eauto; mk.
+           ++ (* the clean-up failed: its failure, with its own nodes, replaces the pending one *)
+              assert (Hnd2 : not_deep (@Err val k2)) by exact Hnd.
+              destruct (IHe _ _ _ _ _ _ _ E2 Hr2 Hnd2 I1' eq_refl) as (V2 & X2).
+              change (defs_of st1') with (defs_of st1) in X2. change (input_data st1') with (input_data st1) in X2.
+              rewrite D1, P1 in X2.
+              split; [intros v Hv; discriminate|].
+              intros k Hk Hmk g rc cc ln' Hc Hrc. inversion Hk; subst k2.
+              destruct (ekind_eqb k1 KDeep) eqn:Ed; [exfalso; clear A1 A2 X2; mk|].
+              destruct g; [simpl in Hc; inversion Hc; congruence|]. simpl in Hc.
+              destruct (ch_expr g (defs_of st) (input_data st) args locs (stmt_line whole idx + 1) e) as [ra ca] eqn:Ca.
+              destruct (ch_expr g (defs_of st) (input_data st) args locs (stmt_line whole idx + 3) fc) as [rh chh] eqn:Ch.
+              assert (Hrh : rh <> OutOfFuel) by (intros ->; destruct ra; inversion Hc; congruence).
+              pose proof (align_expr _ _ _ _ _ _ _ _ _ _ (A2 ltac:(mk)) ltac:(discriminate) Hnd2 Ch Hrh) as ->.
+              destruct ra as [va|ka|]; [| |inversion Hc; congruence]; inversion Hc; subst;
+                (split; [eapply X2; eauto; mk|reflexivity]).
 Qed.
 
 (** * Top level: get_traceback() / get_error() after a failing call
@@ -468,12 +542,12 @@ Qed.
     error and the recorded traceback is the specification's executing chain,
     both functions of the current definitions and inputs only. *)
 Theorem traceback_exact fuel st i k st' :
-  eval_top fuel st i = (Err k, st') -> k <> KDeep -> Inv st ->
+  eval_top fuel st i = (Err k, st') -> k <> KDeep -> s_masks st' = s_masks st -> Inv st ->
   lookup_cell (s_cells st) (fst i) <> None ->
   forall g rc cc, spec_chain g (defs_of st) (input_data st) i = (rc, cc) -> rc <> OutOfFuel ->
   rc = Err k /\ s_err st' = Some (k, cc) /\ s_rolled st' = [].
 Proof.
-  intros H Hk HI Hc g rc cc Hsp Hrc. unfold eval_top in H.
+  intros H Hk Hmk HI Hc g rc cc Hsp Hrc. unfold eval_top in H.
   destruct (lookup_cell (s_cells st) (fst i)) as [cl|] eqn:El; [|congruence].
   destruct (if cl_cached cl then lookup_data (s_data st) i else None) eqn:Eh; [inversion H|].
   set (st0 := upd_taint (upd_rolled (upd_err st None) []) 0) in *.
@@ -484,9 +558,10 @@ Proof.
     as (_ & X).
   destruct (proj1 (proj2 (proj2 (proj2 (sim_all fuel)))) st0 cl i _ _ Ef ltac:(discriminate) I0 El Eh)
     as (_ & _ & A).
+  specialize (A Hmk).
   change (defs_of st0) with (defs_of st) in A. change (input_data st0) with (input_data st) in A.
   unfold spec_chain in Hsp.
-  pose proof (X k eq_refl g rc cc Hsp Hrc) as Hr. split; [|simpl; rewrite Hr; auto].
+  pose proof (X k eq_refl Hmk g rc cc Hsp Hrc) as Hr. split; [|simpl; rewrite Hr; auto].
   simpl in A. destruct A as [->|(g1 & A)]; [congruence|].
   pose proof (proj1 (proj2 (proj2 (ch_fst_all g))) (defs_of st) (input_data st) i) as F.
   rewrite Hsp in F. simpl in F.
@@ -517,11 +592,11 @@ Qed.
 Theorem traceback_exact_after_evals fuel cells refs maxd ops xs st i k st' :
   forallb is_eval ops = true ->
   run fuel (init cells refs maxd) ops = (xs, st) -> no_fuel_out xs ->
-  eval_top fuel st i = (Err k, st') -> k <> KDeep -> lookup_cell cells (fst i) <> None ->
+  eval_top fuel st i = (Err k, st') -> k <> KDeep -> s_masks st' = s_masks st -> lookup_cell cells (fst i) <> None ->
   forall g rc cc, spec_chain g (cells, refs) [] i = (rc, cc) -> rc <> OutOfFuel ->
   rc = Err k /\ s_err st' = Some (k, cc) /\ s_rolled st' = [].
 Proof.
-  intros Hall Hrun Hnf H Hk Hc g rc cc Hsp Hrc.
+  intros Hall Hrun Hnf H Hk Hmk Hc g rc cc Hsp Hrc.
   destruct (run_evals_Inv _ _ _ _ _ Hall Hrun Hnf (Inv_init cells refs maxd)) as (HI & F).
   destruct (frame_defs _ _ F) as (D & P).
   assert (Hcells : s_cells st = cells) by (exact (static_cells _ _ (proj1 F))).
@@ -535,11 +610,11 @@ Qed.
 Theorem traceback_exact_after_history fuel cells refs maxd ops xs st i k st' :
   refn_ok (init cells refs maxd) -> ops_ok2 fuel (init cells refs maxd) ops ->
   run fuel (init cells refs maxd) ops = (xs, st) -> no_fuel_out xs -> s_reent st = false ->
-  eval_top fuel st i = (Err k, st') -> k <> KDeep -> lookup_cell (s_cells st) (fst i) <> None ->
+  eval_top fuel st i = (Err k, st') -> k <> KDeep -> s_masks st' = s_masks st -> lookup_cell (s_cells st) (fst i) <> None ->
   forall g rc cc, spec_chain g (defs_of st) (input_data st) i = (rc, cc) -> rc <> OutOfFuel ->
   rc = Err k /\ s_err st' = Some (k, cc) /\ s_rolled st' = [].
 Proof.
-  intros Hrn Hops Hrun Hnf Hre H Hk Hc g rc cc Hsp Hrc.
+  intros Hrn Hops Hrun Hnf Hre H Hk Hmk Hc g rc cc Hsp Hrc.
   destruct (history_correct2 _ _ _ _ _ _ _ Hrn Hops Hrun Hnf Hre) as (((HI & _) & _) & _).
   eapply traceback_exact; eauto.
 Qed.
@@ -552,7 +627,10 @@ Theorem chain_holds_no_computed_value fuel st i k st' :
     is_cached st' (fst j) = false /\ mem_item j (s_inputs st') = true.
 Proof.
   intros H Hk HI Hc g rc cc Hsp Hrc j l v Hin Hv.
-  destruct (traceback_exact _ _ _ _ _ H Hk HI Hc _ _ _ Hsp Hrc) as (-> & _).
+  (* whatever the executor answered: an element on the specification's chain fails in the specification *)
+  unfold spec_chain in Hsp.
+  destruct rc as [vr|kr|]; [|clear Hk; rename kr into k0|congruence].
+  { rewrite (proj1 (proj2 (proj2 (chain_val_nil g))) _ _ _ _ _ Hsp) in Hin. destruct Hin. }
   destruct (eval_top_sim _ _ _ _ _ H ltac:(discriminate) HI) as (I1 & F1 & _).
   destruct (frame_defs _ _ F1) as (D1 & P1).
   destruct (proj1 (proj2 (proj2 (chain_fail_all g))) _ _ _ _ _ Hsp j l Hin) as (g' & cl & El & Eh & Esp).
